@@ -43,11 +43,11 @@ Section P.
     intros HK HS H. unfold typed_single in H.
     destruct (str_eqb t (s_ "object")).
     - unfold parse_object in H.
-      destruct (match lookup (s_ "title") S with Some t0 => Some t0 | None => lookup (s_ "_x_autotitle") S end) as [[| | | |ts| |]|];
+      destruct (obj_title S) as [[| | | |ts| |]|];
         try (exfalso; revert H; unfold fail; try destruct (py_truthy _); discriminate).
       destruct ts as [|c0 ts']; [exfalso; revert H; unfold fail; discriminate|].
       eapply dedupe_carried; [| |exact H]; [|eauto].
-      cbn [elem_default k_default]. rewrite HS. exact HK.
+      unfold obj_record. cbn [elem_default k_default]. rewrite HS. exact HK.
     - destruct (has_key (s_ "self") S); [exfalso; revert H; unfold fail; discriminate|].
       destruct (str_eqb t (s_ "array")).
       + apply ret_inv in H as [<- _]. exists x. split; [|now left].
